@@ -170,6 +170,7 @@ type genCA struct {
 	chain      []int64
 	def, max   int64
 	expectFail bool
+	staleCap   bool // see defaultDeterministic
 }
 
 func (c genCA) line() []string {
@@ -200,6 +201,9 @@ func genCAConfig(r *wire.Rng) genCA {
 		c.life = wire.Pick(r, []int64{7200, 30 * 86400})
 	case 20, 21:
 		c.kind = "plugfile"
+		if r.Chance(1, 6) {
+			c.kind, c.expectFail = "plugfilenotca", true // refused by NewPluggedCertIstioCAOptions: every request is answered no-ca
+		}
 		c.life = wire.Pick(r, []int64{3600, 7200, 30 * 86400})
 		c.chain = []int64{c.life}
 	case 22:
@@ -266,7 +270,9 @@ func ttlDeterministic(v int64, c genCA) bool {
 		return true // rejected with a TTL error
 	}
 	if ns%int64(time.Second) != 0 {
-		return false
+		// a lifetime that is no whole number of seconds: only below one microsecond (reachable through the int64 wrap of
+		// ValidityDuration*1e9) is the observable outcome - a certificate of lifetime zero - independent of the clock
+		return ns < 1000 && defaultDeterministic(c) && c.max > 0
 	}
 	s := ns / int64(time.Second)
 	return !nearBoundary(s, c)
@@ -284,6 +290,11 @@ func nearBoundary(s int64, c genCA) bool {
 }
 
 func defaultDeterministic(c genCA) bool {
+	if c.staleCap {
+		// the default TTL was capped at construction to the REMAINING life of a chain head that has been replaced since: a
+		// few milliseconds short of a whole number of seconds, which shows once nothing clamps it any more
+		return false
+	}
 	d := c.def
 	if d > c.max {
 		d = c.max // sign() caps a defaulted lifetime at the maximum
@@ -345,6 +356,10 @@ func genTTL(r *wire.Rng, c genCA) int64 {
 			v = -(1 << 63)
 		case 22:
 			v = int64(r.Next())
+			if r.Chance(1, 2) {
+				// ValidityDuration * 1e9 wraps (mod 2^64) to 512 ns / 1024 ns: a positive lifetime below one second
+				v = wire.Pick(r, []int64{20211507185753197, 40423014371506394})
+			}
 		default:
 			v = wire.Pick(r, []int64{300, 600, 1800, 3000})
 		}
@@ -481,7 +496,7 @@ func genImpersonation(r *wire.Rng, w genWorld) string {
 		return s("spiffe://evil," + wire.Pick(r, []string{"victim.example.com", "10.0.0.1", "spiffe://cluster.local/ns/kube-system"}) + ",x/ns/" +
 			wire.Pick(r, genNSs) + "/sa/" + wire.Pick(r, genSAs))
 	case 3:
-		return s("spiffe://other.td/ns/" + wire.Pick(r, genNSs) + "/sa/" + wire.Pick(r, genSAs))
+		return s("spiffe://" + wire.Pick(r, []string{"other.td", "other.td", ""}) + "/ns/" + wire.Pick(r, genNSs) + "/sa/" + wire.Pick(r, genSAs))
 	case 4:
 		return s(genIdentity(r))
 	}
@@ -518,6 +533,9 @@ func genGoodImpersonation(r *wire.Rng, w genWorld, q *reqSpec) {
 	tgt := wire.Pick(r, targets)
 	o := authOutcome{kind: "ok", ids: []string{"spiffe://cluster.local/ns/" + zt.ns + "/sa/" + zt.sa}, kube: kinfo(zt.name, zt.ns, zt.uid, zt.sa)}
 	imp := "spiffe://" + wire.Pick(r, genTDs) + "/ns/" + tgt.ns + "/sa/" + tgt.sa
+	if r.Chance(1, 25) {
+		imp = "spiffe:///ns/" + tgt.ns + "/sa/" + tgt.sa // an EMPTY trust domain: the gate does not look at it (the known class)
+	}
 	q.cluster = wire.EncList([]string{id})
 	switch r.Intn(23) {
 	case 21, 22:
@@ -892,6 +910,13 @@ func genDynamicCase(r *wire.Rng, cfg genCA, out *wire.Out) {
 				}
 			}
 		case 5:
+			if isPending && r.Chance(1, 3) {
+				// the new component syncs; requests arrive before anything finalises the swap
+				out.Line("cl", "run", id)
+				active[id] = pending[id]
+				request()
+				request()
+			}
 			if isPending {
 				out.Line("cl", "sync", id)
 				active[id] = pending[id]
@@ -946,6 +971,53 @@ func genReqM(r *wire.Rng, w genWorld, cfg genCA) reqmSpec {
 			sp[6] = m.req.cluster
 		}
 		return sp
+	}
+	if r.Chance(2, 5) {
+		// istiod's chain as pilot/pkg/bootstrap builds it (tied to the source by AUTHENTICATOR_ORDER_FACTS): client
+		// certificate, OIDC (JWT_RULE), Kubernetes JWT, XFCC (TRUSTED_GATEWAY_CIDR), and RunCA's out-of-cluster OIDC
+		// authenticator appended last.  All token-based ones read the one `authorization` metadata, which carries the
+		// token of the LAST token-based spec of the line.
+		good := r.Intn(6)
+		m.specs = append(m.specs, pick(certKind, good == 0))
+		withJwtRule, withRunCA := r.Chance(2, 3), r.Chance(1, 2)
+		if !withJwtRule && !withRunCA {
+			withJwtRule = true
+		}
+		kubeAt := -1
+		if withJwtRule {
+			m.specs = append(m.specs, pick(0, good == 1 || good == 5))
+		}
+		if !withRunCA || r.Chance(2, 3) {
+			kubeAt = len(m.specs)
+			m.specs = append(m.specs, pick(1, good == 2))
+		}
+		if r.Chance(1, 2) {
+			m.specs = append(m.specs, pick(2, good == 3))
+		}
+		if withRunCA {
+			last := pick(0, good == 4 || good == 5)
+			last[9] = wire.Pick(r, []string{"d", "d", "d", "dn"}) // RunCA's rule has no jwks_uri; before fix cb98066 it had no mesh watcher
+			m.specs = append(m.specs, last)
+			if withJwtRule && r.Chance(1, 2) {
+				// the JWT_RULE authenticator accepts the same issuer: it judges the very token RunCA's would - by its own
+				// audiences and under its own trust domain - and comes first
+				first := append([]string{}, last...)
+				first[2], first[9] = wire.Enc(wire.Pick(r, []string{"cluster.local", "jwt-rule.td"})), "j"
+				if r.Chance(1, 3) {
+					first[3] = wire.EncList([]string{"some-other-audience"})
+				}
+				m.specs[1] = first
+			}
+		}
+		if kubeAt >= 0 && len(w.ids) > 0 && !withRunCA && r.Chance(1, 2) {
+			if sp := genAmbientKube(r, w, &m.req); sp != nil {
+				m.specs[kubeAt] = sp
+				if r.Chance(3, 4) {
+					m.specs[0] = []string{"cert", "grpc", "tls", wire.EncList([]string{wire.Enc("nosan")})}
+				}
+			}
+		}
+		return m
 	}
 	// which of the three (if any) carries a valid credential
 	good := r.Intn(5)
@@ -1024,6 +1096,9 @@ func genIssue(seed uint64, n int, outp string) {
 				}
 				out.Line("rot", strconv.FormatInt(life, 10), chain)
 				if life > 0 {
+					if len(cfg.chain) > 0 && cfg.def >= cfg.chain[0] {
+						cfg.staleCap = true
+					}
 					cfg.life, cfg.kind = life, "plug" // later TTLs are judged against the new signer
 					cfg.chain = nil
 				}
@@ -1068,6 +1143,8 @@ func genIssue(seed uint64, n int, outp string) {
 				q.tls, q.other = false, true // an AuthInfo that is not credentials.TLSInfo (ALTS, local, ...)
 			case 6:
 				q.tls, q.other, q.plaintext = false, true, true
+			case 7, 8:
+				q.noMD = true // a context without incoming metadata: no clusterid (filled in below, then ignored), everything else as usual
 			}
 			q.outs = genOutcomes(r, w)
 			if !q.tls && len(q.outs) > 0 && r.Chance(3, 4) {
